@@ -450,9 +450,11 @@ impl World {
         }
         // NAT devices at or before `at`
         let mut nat_id: u16 = 0;
+        let mut keep_src = false;
         for (i, h) in path.hops.iter().enumerate() {
             if i + 1 <= at && h.nat > 0 {
                 nat_id = nat_id.wrapping_mul(31).wrapping_add(h.nat);
+                keep_src = h.nat_keep_src;
             }
         }
         if nat_id > 0 && v4 && q[9] == wire::PROTO_UDP && q.len() >= 28 {
@@ -468,6 +470,10 @@ impl World {
                 c = 0xffff;
             }
             q[26..28].copy_from_slice(&c.to_be_bytes());
+            if keep_src {
+                // some devices do not translate the datagram embedded in an ICMP error back
+                q[12..16].copy_from_slice(&src2.octets());
+            }
         }
         if v4 {
             wire::ipv4_fix_checksum(&mut q);
